@@ -36,7 +36,8 @@ TRUSTED = ['A1 float == real; A2 object arrays == float arrays; dependency contr
 ASSUMPTIONS = ['finite estimates (no NaN); steps positive']
 NOT_DECIDED = ['"true error never exceeds a fixed multiple of the estimate" for arbitrary analytic f (heuristic, not a theorem); '
                'the rounding floor']
-BOUNDED = ['honesty-concrete: the inequality |result - exact| <= 100*error_estimate + 1e-5*scale*10**n executed on 432 concrete configurations (exp, sin, 1/x; n = 1..4; 4 methods; default and five user-supplied step settings; 3 points each) in floating point -- a stand-in for the undecided honesty clause, never counted as proved; the configurations that fail on the unchanged tree are known finding F12',
+BOUNDED = ['record[..] (last obligation): calls carrying extra positional / keyword arguments, 9 concrete calls per class -- executed, not proved',
+           'honesty-concrete: the inequality |result - exact| <= 100*error_estimate + 1e-5*scale*10**n executed on 432 concrete configurations (exp, sin, 1/x; n = 1..4; 4 methods; default and five user-supplied step settings; 3 points each) and on 18 configurations with the complex-valued exp(i w x) (real-step methods, n = 1, 2, default steps, 5 points each) in floating point -- a stand-in for the undecided honesty clause, never counted as proved; the configurations that fail on the unchanged tree are known finding F12',
            'tables of at most 6 x 3 entries in the mechanism contracts (the rules are column-wise and uniform in the size)']
 QUANTIFIED = 'all table entries, points, steps and function values: universally quantified'
 
@@ -58,6 +59,9 @@ def groups(tier):
         out.append(('contract:jacobian-table[%s]' % method, ('dep', 'C03', 'run_jac', (method, C03.dims(tier), [2, 4] if method in ('central', 'forward', 'complex') else [2]), {})))
     for klass in ('Hessian', 'Hessdiag'):
         out.append(('contract:hessian-table[%s]' % klass, ('dep', 'C04', 'run_call', (klass, tier), {})))
+    # the Wynn stage's estimate (dea3) is taken by contract in the record / richardson groups: discharged here as well
+    out.append(('contract:dea3[geometric]', ('dep', 'C13', 'run_geometric', (), {})))
+    out.append(('contract:dea3[total]', ('dep', 'C13', 'run_total', (), {})))
     return out
 
 
@@ -156,6 +160,10 @@ def run_record(klass, tier):
                         for v in asobj(st).ravel():
                             cands.append(fs.t == lift(v).t)
                     solve.prove_lin(tag + 'R:final_step%s-is-one-of-the-generated-steps' % (idx,), z3.Or(*cands), H)
+    import numdifftools as nd
+    from ndvc.concrete import record_extra_args_cases
+    cnt, xbad = record_extra_args_cases(nd, klass)
+    solve.fact('extra-arguments:f_value==f(x,*args,**kwds),value-and-estimate-belong-to-that-function[%d calls]' % cnt, not xbad, kind='bounded', note=str(xbad[:2])[:300])
     return info
 
 
@@ -183,6 +191,28 @@ def run_penalty(K, N):
                 spec = z3.If(outl, ab(dk - med), z3.RealVal(0))
                 solve.prove('P:outlier-penalty[%d,%d]==documented-rule' % (k, c), lift(out[k, c]).t == spec, H)
         solve.twin('P:outlier-penalty-is-always-zero', z3.And(*[lift(v).t == 0 for v in out.ravel()]), H)
+        # complex-valued estimates (complex-valued f with the real-step methods): real and imaginary parts are screened separately,
+        # each by the documented rule, and the two penalties add up
+        from ndvc.sym import cplx, C
+        zder = SymArr([[cplx('z_%d_c%d' % (k, c)) for c in range(N)] for k in range(K)])
+        zpaths = explore(lambda: lm._Limit._add_error_to_outliers(zder), max_paths=8, catch=(Exception,))
+        okz = len(zpaths) == 1 and zpaths[0].exc is None
+        solve.fact('P:outlier-penalty(complex-estimates):single-path', okz, note=str([repr(p.exc)[:100] for p in zpaths if p.exc][:1]))
+        if okz:
+            zout = asobj(zpaths[0].value)
+
+            def rule(col, k):
+                p25, med, p75 = [uf('pctl%d_%d' % (q, K), K)(*col) for q in (25, 50, 75)]
+                iqr = ab(p75 - p25); amed = ab(med); dk = col[k]
+                outl = z3.Or(z3.And(z3.Or(ab(dk) < amed / 10, ab(dk) > amed * 10), amed > _frac(Fraction(1e-8))),
+                             dk < p25 - _frac(Fraction(1.5)) * iqr, p75 + _frac(Fraction(1.5)) * iqr < dk)
+                return z3.If(outl, ab(dk - med), z3.RealVal(0))
+            for c in range(N):
+                rcol = [zder[k, c].re.t for k in range(K)]; icol = [zder[k, c].im.t for k in range(K)]
+                for k in range(K):
+                    o = lift(zout[k, c])
+                    goal = (o.t == rule(rcol, k) + rule(icol, k)) if not isinstance(o, C) else z3.And(o.re.t == rule(rcol, k) + rule(icol, k), o.im.t == 0)
+                    solve.prove('P:outlier-penalty(complex-estimates)[%d,%d]==rule(real-parts)+rule(imaginary-parts)' % (k, c), goal, zpaths[0].hyps)
     return {}
 
 
@@ -270,7 +300,11 @@ def run_honesty():
     res = honesty_cases(nd)
     for name, (ok, detail) in sorted(res.items()):
         solve.fact(name + ':true-error<=100*estimate+rounding-floor', ok, kind='bounded', note=str(detail)[:200] if detail else '')
-    return dict(honesty_cases=len(res))
+    from ndvc.concrete import honesty_complex_cases
+    res2 = honesty_complex_cases(nd)
+    for name, (ok, detail) in sorted(res2.items()):
+        solve.fact(name + ':true-error<=100*estimate+rounding-floor', ok, kind='bounded', note=str(detail)[:200] if detail else '')
+    return dict(honesty_cases=len(res) + len(res2))
 
 
 def run_group(args):
@@ -291,7 +325,8 @@ def run_group(args):
 def replay_case(ob):
     import re
     nm = ob['name']
-    for pre, modname, orig in [('contract:jacobian-table[', 'C03', 'jac['), ('contract:hessian-table[', 'C04', 'call[')]:
+    for pre, modname, orig in [('contract:jacobian-table[', 'C03', 'jac['), ('contract:hessian-table[', 'C04', 'call['),
+                               ('contract:dea3[geometric]/', 'C13', 'geometric/'), ('contract:dea3[total]/', 'C13', 'total/')]:
         if nm.startswith(pre):
             import importlib
             return importlib.import_module('props.' + modname).replay_case(dict(ob, name=orig + nm[len(pre):]))
